@@ -7,7 +7,8 @@ package main
 // Kinds "stream" / "streamgarbage" (same runner, different generators and comparisons):
 //   <id> cfg=<cfgspec> l=<tcp|gnet> via=<sock|feed> segs=<hex>,<hex>,..  ups=<delayms>:<replyhex>,..|-
 //        exp=<n responses expected (hint: stop waiting early)> hc=<0|1|?> (hint: the server will close)
-//        gap=<ms between segments (sock)> burst=<0|1> probe=<0|1> [ids=.. rc5=.. : oracle hints, ignored here]
+//        gap=<ms between segments (sock)> burst=<0|1> probe=<0|1> [ids=.. rc5=.. phases=.. : oracle/model hints, ignored here]
+//        pz=<i>:<n>  before segment i wait until n whole responses have been read back, then 100 ms (two-phase cases)
 //   -> st=<open|closed> n=<responses> units=<sorted response bodies, hex> ans=<sorted id:rcode> bad=<0|1>
 //      alive=<1|0|-> tr=<per read event  buflen:readN:hdr:inbound:action>|- ord=<ids in arrival order> raw=<hex>
 //
@@ -275,6 +276,17 @@ func runStream(id string, parts []string) string {
 	hc := f["hc"]
 	gap := time.Duration(hx.MustAtoi(f["gap"])) * time.Millisecond
 	grace := 60 * time.Millisecond
+	pzSeg, pzN := -1, 0
+	if pz := f["pz"]; pz != "" && pz != "-" {
+		a, b, _ := strings.Cut(pz, ":")
+		pzSeg, pzN = hx.MustAtoi(a), hx.MustAtoi(b)
+	}
+	pause := func(i int, out *sink) {
+		if i != pzSeg {
+			return
+		}
+		waitSink(out, pzN, "0", 100*time.Millisecond, 6*time.Second)
+	}
 	max := maxDelay + 3*time.Second
 	if hc == "?" {
 		max = maxDelay + 700*time.Millisecond
@@ -285,11 +297,11 @@ func runStream(id string, parts []string) string {
 		tr := "-"
 		switch f["via"] + "/" + f["l"] {
 		case "feed/gnet":
-			raw, closed, tr = feedGnet(env, maxc, segs, exp, hc, grace, max)
+			raw, closed, tr = feedGnet(env, maxc, segs, exp, hc, grace, max, pause)
 		case "feed/tcp":
-			raw, closed = feedTcp(env, maxc, segs, exp, hc, grace, max)
+			raw, closed = feedTcp(env, maxc, segs, exp, hc, grace, max, pause)
 		default:
-			raw, closed = sockStream(env.Ports[f["l"]], segs, gap, exp, hc, grace, max)
+			raw, closed = sockStream(env.Ports[f["l"]], segs, gap, exp, hc, grace, max, pause)
 		}
 		units, leftover := splitFrames(raw)
 		var us, ans, ord []string
@@ -325,7 +337,7 @@ func orDashS(s string) string {
 	return s
 }
 
-func feedGnet(env *hx.RouterEnv, maxc int, segs [][]byte, exp int, hc string, grace, max time.Duration) ([]byte, bool, string) {
+func feedGnet(env *hx.RouterEnv, maxc int, segs [][]byte, exp int, hc string, grace, max time.Duration, pause func(int, *sink)) ([]byte, bool, string) {
 	g := env.R.VerifNewGnet(int32(maxc), time.Hour)
 	c := newFakeGnetConn()
 	defer close(c.tasks)
@@ -333,13 +345,14 @@ func feedGnet(env *hx.RouterEnv, maxc int, segs [][]byte, exp int, hc string, gr
 	c.onLoop(func() { act = g.OnOpen(c) })
 	var tr []string
 	closed := act == gnet.Close
-	for _, s := range segs {
+	for i, s := range segs {
 		if closed {
 			break
 		}
 		if len(s) == 0 {
 			continue
 		}
+		pause(i, c.out)
 		a, d := c.readEvent(g, s)
 		tr = append(tr, d)
 		if a == gnet.Close {
@@ -356,7 +369,7 @@ func feedGnet(env *hx.RouterEnv, maxc int, segs [][]byte, exp int, hc string, gr
 	return raw, closed, strings.Join(orDash(tr), ";")
 }
 
-func feedTcp(env *hx.RouterEnv, maxc int, segs [][]byte, exp int, hc string, grace, max time.Duration) ([]byte, bool) {
+func feedTcp(env *hx.RouterEnv, maxc int, segs [][]byte, exp int, hc string, grace, max time.Duration, pause func(int, *sink)) ([]byte, bool) {
 	cl, sv := net.Pipe()
 	done := make(chan struct{})
 	go func() {
@@ -377,10 +390,11 @@ func feedTcp(env *hx.RouterEnv, maxc int, segs [][]byte, exp int, hc string, gra
 			}
 		}
 	}()
-	for _, s := range segs {
+	for i, s := range segs {
 		if len(s) == 0 {
 			continue
 		}
+		pause(i, out)
 		cl.SetWriteDeadline(time.Now().Add(5 * time.Second))
 		if _, err := cl.Write(s); err != nil {
 			break
@@ -397,7 +411,7 @@ func feedTcp(env *hx.RouterEnv, maxc int, segs [][]byte, exp int, hc string, gra
 	return raw, closed
 }
 
-func sockStream(port int, segs [][]byte, gap time.Duration, exp int, hc string, grace, max time.Duration) ([]byte, bool) {
+func sockStream(port int, segs [][]byte, gap time.Duration, exp int, hc string, grace, max time.Duration, pause func(int, *sink)) ([]byte, bool) {
 	c, err := net.DialTimeout("tcp", fmt.Sprintf("127.0.0.1:%d", port), 2*time.Second)
 	if err != nil {
 		return nil, true
@@ -428,6 +442,7 @@ func sockStream(port int, segs [][]byte, gap time.Duration, exp int, hc string, 
 		if i > 0 && gap > 0 {
 			time.Sleep(gap)
 		}
+		pause(i, out)
 		c.SetWriteDeadline(time.Now().Add(5 * time.Second))
 		if _, err := c.Write(s); err != nil {
 			break
@@ -437,6 +452,8 @@ func sockStream(port int, segs [][]byte, gap time.Duration, exp int, hc string, 
 	raw, closed := out.snapshot()
 	return raw, closed
 }
+
+func nopause(int, *sink) {}
 
 // a fresh connection with one valid query must still be answered
 func probeAlive(env *hx.RouterEnv, via, l string, maxc int) string {
@@ -449,11 +466,11 @@ func probeAlive(env *hx.RouterEnv, via, l string, maxc int) string {
 	var raw []byte
 	switch via + "/" + l {
 	case "feed/gnet":
-		raw, _, _ = feedGnet(env, maxc, [][]byte{fr}, 1, "0", 5*time.Millisecond, 3*time.Second)
+		raw, _, _ = feedGnet(env, maxc, [][]byte{fr}, 1, "0", 5*time.Millisecond, 3*time.Second, nopause)
 	case "feed/tcp":
-		raw, _ = feedTcp(env, maxc, [][]byte{fr}, 1, "0", 5*time.Millisecond, 3*time.Second)
+		raw, _ = feedTcp(env, maxc, [][]byte{fr}, 1, "0", 5*time.Millisecond, 3*time.Second, nopause)
 	default:
-		raw, _ = sockStream(env.Ports[l], [][]byte{fr}, 0, 1, "0", 5*time.Millisecond, 3*time.Second)
+		raw, _ = sockStream(env.Ports[l], [][]byte{fr}, 0, 1, "0", 5*time.Millisecond, 3*time.Second, nopause)
 	}
 	u, left := splitFrames(raw)
 	if len(u) == 1 && !left && len(u[0]) >= 2 && u[0][0] == 0xbe && u[0][1] == 0xef {
